@@ -1008,6 +1008,39 @@ func c11VecsBackToMaps(t *ref.C11Type, v *ref.C11Val) *ref.C11Val {
 	return out
 }
 
+var c11Two64 = new(big.Int).Lsh(big.NewInt(1), 64)
+
+// c11Unsign maps a negative Go int (which gossamer encodes as the two's complement uint64; SCALE has
+// no compact form for negative numbers) to the unsigned number whose compact encoding it is.
+func c11Unsign(t *ref.C11Type, v *ref.C11Val) *ref.C11Val {
+	out := &ref.C11Val{N: v.N, B: v.B, T: v.T, Idx: v.Idx}
+	if t.Kind == ref.C11Compact && t.Signed && v.N.Sign() < 0 {
+		out.N = new(big.Int).Add(v.N, c11Two64)
+		return out
+	}
+	switch t.Kind {
+	case ref.C11Option:
+		if v.Idx == 1 {
+			out.Elems = []*ref.C11Val{c11Unsign(t.Elem, v.Elems[0])}
+		}
+	case ref.C11Vec, ref.C11Array:
+		for _, e := range v.Elems {
+			out.Elems = append(out.Elems, c11Unsign(t.Elem, e))
+		}
+	case ref.C11Map:
+		for i := 0; i+1 < len(v.Elems); i += 2 {
+			out.Elems = append(out.Elems, c11Unsign(t.Key, v.Elems[i]), c11Unsign(t.Elem, v.Elems[i+1]))
+		}
+	case ref.C11Tuple:
+		for i, e := range v.Elems {
+			out.Elems = append(out.Elems, c11Unsign(t.Fields[i], e))
+		}
+	case ref.C11Result, ref.C11Enum:
+		out.Elems = []*ref.C11Val{c11Unsign(t.Fields[v.Idx], v.Elems[0])}
+	}
+	return out
+}
+
 // c11PanicSite names the first function of pkg/scale itself on the stack of a captured panic.
 func c11PanicSite(msg string) string {
 	const pfx = "github.com/ChainSafe/gossamer/pkg/scale."
